@@ -111,6 +111,7 @@ type FuncSpec struct {
 	Results  []string
 	Ghosts   []Param
 	Requires []Clause
+	Hidden   map[string]bool // "hide a, b": labelled ensures that are proved for the function but not handed to its callers (keeps callers' queries small; sound: callers only know less)
 	Assumes  []Clause // "assumes": entry conditions the body is verified under that are NOT checked at call sites (each is reported as an unchecked assumption)
 	Ensures  []Clause
 	Modifies []Expr
@@ -509,7 +510,7 @@ var clauseKW = map[string]bool{
 	"spec": true, "func": true, "lemma": true, "guarded": true,
 	"requires": true, "ensures": true, "modifies": true, "ghost": true, "loop": true,
 	"invariant": true, "decreases": true, "unfold": true, "inline": true, "trusted": true,
-	"pure": true, "atomic": true, "param": true, "induction": true, "havoc": true, "nopanic": true, "unroll": true, "known-finding": true, "apply": true, "assert": true, "witness": true, "cs-pure": true, "inline-call": true, "lockinv": true, "opaque-calls": true, "signal-channels": true, "callback": true, "immutable": true, "ghost-arg": true, "assumes": true,
+	"pure": true, "atomic": true, "param": true, "induction": true, "havoc": true, "nopanic": true, "unroll": true, "known-finding": true, "apply": true, "assert": true, "witness": true, "cs-pure": true, "inline-call": true, "lockinv": true, "opaque-calls": true, "signal-channels": true, "callback": true, "immutable": true, "ghost-arg": true, "assumes": true, "hide": true,
 }
 
 type rawClause struct {
@@ -721,6 +722,16 @@ func ParseContractFile(path string, src []byte, ps *PkgSpec) error {
 				return fmt.Errorf("%s:%d: assert outside loop", path, rc.line)
 			}
 			curLoop.Asserts = append(curLoop.Asserts, c)
+		case "hide":
+			if cur == nil || curParam != nil || curLoop != nil {
+				return fmt.Errorf("%s:%d: hide outside func", path, rc.line)
+			}
+			if cur.Hidden == nil {
+				cur.Hidden = map[string]bool{}
+			}
+			for _, l := range strings.Split(rc.text, ",") {
+				cur.Hidden[strings.TrimSpace(l)] = true
+			}
 		case "assumes":
 			c, err := mkClause(rc)
 			if err != nil {
